@@ -1,0 +1,30 @@
+//go:build verif
+
+package rogger
+
+import "context"
+
+// VerifResetFlush re-arms the one-shot flush machinery after a FlushLogger call so that a
+// verification run can exercise many flushes in one process.  It waits for the previous flusher
+// goroutine to finish first.
+func VerifResetFlush() {
+	if syncDone.Err() != nil {
+		<-asyncDone.Done()
+	} else {
+		// never flushed: stop the running flusher first
+		syncCancel()
+		<-asyncDone.Done()
+	}
+	syncDone, syncCancel = context.WithCancel(context.Background())
+	asyncDone, asyncCancel = context.WithCancel(context.Background())
+	go flushLog()
+}
+
+// VerifFlushRequested reports whether FlushLogger has signalled the flusher.
+func VerifFlushRequested() bool { return syncDone.Err() != nil }
+
+// VerifQueueLen returns the number of entries waiting in the log queue.
+func VerifQueueLen() int { return len(logQueue) }
+
+// VerifFlushTimeout returns the flush timeout.
+func VerifFlushTimeout() int64 { return int64(waitFlushTimeout) }
